@@ -11,6 +11,9 @@ def run(tier):
     d, cases, outs = common.mc_replay(rep, binary, PROP, "MC_C14", keyf=common.default_key)
     # (b) impl -> spec: value-level mutations of the accepted SCT encodings, compared with the specification's answer
     common.dfuzz(rep, binary, PROP, cases, 3000 if tier != "thorough" else 60000)
+    # (growth) seeded, structurally random SCTs and lists of 0..12 of them (every field from its whole domain, arbitrary sizes)
+    common.mc_replay(rep, binary, PROP, "MC_C14_Rand", keyf=lambda c: "rand:%s:%s" % (c["note"]["t"], c["id"]), run="rand", nchunks=8,
+                     env={"VERIF_SEED": str(vlib.seed())})
     # (growth) every length of the variable-size fields, not only the boundaries (MC_LenSweep)
     common.len_sweep(rep, binary, PROP)
     return rep.finish("model_checking",
